@@ -1,6 +1,8 @@
 package main
 
 import (
+	"sort"
+	"strconv"
 	"fmt"
 	"go/constant"
 	"go/token"
@@ -91,7 +93,17 @@ func (g *Gen) callCommon(in *ssa.Call, common *ssa.CallCommon, args []*SV, st *S
 		if ac.AtText != "" {
 			continue
 		}
-		if key != "" && (strings.HasSuffix(key, "."+ac.Callee) || strings.HasSuffix(key, "/"+ac.Callee) || key == ac.Callee) {
+		acCallee, site := ac.Callee, -1
+		if i := strings.LastIndex(acCallee, "#"); i > 0 {
+			// "f#k": only the k-th call of f in source order (0-based)
+			if k, err := strconv.Atoi(acCallee[i+1:]); err == nil {
+				acCallee, site = acCallee[:i], k
+			}
+		}
+		if key != "" && (strings.HasSuffix(key, "."+acCallee) || strings.HasSuffix(key, "/"+acCallee) || key == acCallee) {
+			if site >= 0 && g.callSiteOrdinal(acCallee, pos) != site {
+				continue
+			}
 			env := g.envAt(st, nil)
 			// expose callee arguments as $0,$1,...
 			for i, a := range args {
@@ -732,6 +744,31 @@ func (g *Gen) lockOrderCallee(callee *ssa.Function, st *State, reach string, pos
 		g.safeCtr["lockorder"]++
 		g.addObl("lock-order", fmt.Sprint(k), implies(reach, and(none...)), pos, "calling "+callee.String()+", which may acquire "+n+": neither it nor a lock that must be taken after it ("+order+") is held", nil)
 	}
+}
+
+// callSiteOrdinal: rank (0-based, by source position) of the call at pos among the calls of the named
+// callee in the function.
+func (g *Gen) callSiteOrdinal(name string, pos token.Pos) int {
+	var ps []token.Pos
+	for _, b := range g.fn.Blocks {
+		for _, in := range b.Instrs {
+			ci, ok := in.(ssa.CallInstruction)
+			if !ok {
+				continue
+			}
+			key, _ := g.calleeKey(ci.Common())
+			if key != "" && (strings.HasSuffix(key, "."+name) || strings.HasSuffix(key, "/"+name) || key == name) {
+				ps = append(ps, in.Pos())
+			}
+		}
+	}
+	sort.Slice(ps, func(i, j int) bool { return ps[i] < ps[j] })
+	for i, p := range ps {
+		if p == pos {
+			return i
+		}
+	}
+	return -1
 }
 
 // lockWrapper recognises a method whose whole body locks or unlocks a mutex field of its receiver.
